@@ -187,6 +187,12 @@ func init() {
 		},
 		vpkg + "SetStdin": func(m *Machine, _ *frame, _ *ssa.Function, a []Value) Value {
 			m.natives["stdin"] = sliceBytes(a[0].(Slice))
+			delete(m.natives, "stdin.err")
+			return nil
+		},
+		vpkg + "stdinFail": func(m *Machine, _ *frame, _ *ssa.Function, a []Value) Value {
+			m.natives["stdin"] = sliceBytes(a[0].(Slice))
+			m.natives["stdin.err"] = a[1]
 			return nil
 		},
 		// (*os.File).Read: only standard input exists under the engine; it serves the bytes given to
@@ -195,6 +201,9 @@ func init() {
 		"(*os.File).Read": func(m *Machine, _ *frame, _ *ssa.Function, a []Value) Value {
 			buf, _ := m.natives["stdin"].([]*term.T)
 			dst := a[1].(Slice)
+			if e, failing := m.natives["stdin.err"]; failing && len(buf) == 0 {
+				return Tuple{m.mkInt(0), e.(Value)}
+			}
 			if len(buf) == 0 {
 				eof := Value(Iface{})
 				if iop := m.P.Prog.ImportedPackage("io"); iop != nil && iop.Var("EOF") != nil {
